@@ -91,7 +91,12 @@ def judge_c02(chk, r, o):
             return
         chk.violation("tree %s: the produced DSL does not parse: %s" % (r["id"], rp.get("errs") or rp.get("panic")), dict(rep, dsl=o["proto"]["text"]))
         return
-    if clean_model(rp["m"]) != clean_model(r["norm"]):
+    got_m, want_m = clean_model(rp["m"]), clean_model(r["norm"])
+    if r.get("modular"):
+        # a model in which some type carries a module is printed in the canonical order of C14 (module, file, name): the order of its
+        # type definitions is not the input's; everywhere else it is
+        got_m, want_m = dict(got_m, types=sorted(got_m["types"], key=lambda t: t["name"])), dict(want_m, types=sorted(want_m["types"], key=lambda t: t["name"]))
+    if got_m != want_m:
         chk.violation("tree %s: parsing the produced DSL does not give back the model (up to the stated normalisation)" % r["id"],
                       dict(rep, dsl=o["proto"]["text"], reparsed=clean_model(rp["m"]), expected=clean_model(r["norm"])))
         return
@@ -99,7 +104,7 @@ def judge_c02(chk, r, o):
         # the property is decided by the reparse above; a different but equivalent text is drift of the Impl layer
         chk.drift.append({"tree": r["id"], "real": o["proto"]["text"][-120:], "spec": r["print"][-120:]})
     key = "doc#x"
-    if o["assignable"].get(key) != r["assignable"]:
+    if r["assignable"] is not None and o["assignable"].get(key) != r["assignable"]:
         chk.violation("tree %s: IsRelationAssignable = %s but the tree %s a direct assignment" % (r["id"], o["assignable"].get(key), "has" if r["assignable"] else "has no"), rep)
 
 
@@ -115,6 +120,15 @@ def run_c02(chk, binary, sc, tier):
     KNOWN_IDS.update(f["id"] for f in load_findings() if f["status"] == "known" and chk.pid in f["properties"])
     for r in recs:
         judge_c02(chk, r, obs[r["id"]])
+    # ... and models with module / file attribution on some of their relations and conditions while the types carry none (and the other
+    # way round): "gives back the input model" includes the order of the type definitions wherever C14 does not prescribe another one
+    att = run_tlc("DslMC", ATTR_CFG % {"ta": "{1,2}", "ra": "{1,2}", "ca": "{1,3}"}, sc, cache=True, timeout=3000)
+    arecs = [{"id": r["id"], "rec": "tree", "m": r["m"], "expressible": True, "accepts": True, "print": r["plain"], "norm": r["norm"], "assignable": None,
+              "modular": any(t.get("module") for t in r["m"]["types"])} for r in att.records]
+    aobs = run_print(binary, sc, arecs, "trees")
+    for r in arecs:
+        judge_c02(chk, r, aobs[r["id"]])
+    recs = recs + arecs
     for f in load_findings():
         if f["id"] == "D20" and f["status"] == "known" and chk.pid in f["properties"]:
             if chk.known.get("D20"):
